@@ -117,7 +117,7 @@ CLAIMED = {
    text="Theorems over Config.new: C19_default_first (default first, present, no duplicates, set = listed + default), C19_duplicates_rejected, C19_inherits_valid / _unknown_rejected / _default_inherits_rejected, C19_required_fields, C19_unknown_ignored, "
         "C19_files_read(_order) (exactly the (namespace, locale) files in configuration order). Correspondence: ConfigFile::new on ~3k generated manifests (exhaustive locale lists <=3 over 4 names x 3 defaults) vs model vs independent spec; tracked files for generated layouts x 3 formats. Manifests mentioning the section header in comments / strings, CRLF line endings, files present only under another format's extension. "
         "The textual step before TOML decoding is modelled too (Model/Manifest.lean, Theorems/C19Section.lean, any manifest text): C19_section_reassemble (before ++ header ++ after is the manifest), C19_section_starts_line, C19_section_first, C19_section_absent_iff (ConfigNotPresent iff no line starts with the header), "
-        "C19_mention_is_not_section / C19_blank_is_not_section (a comment or string mentioning the header is never the section), C19_whitespaced_shape, C19_line_numbers_kept (every character of the section is on the same line of the text handed to the TOML parser as in Cargo.toml). Correspondence for it: the private split_at_config_section, whose source text is extracted from /repo by the harness' build.rs on every build, vs Manifest.splitAtSection vs the statement on ~3k generated texts (Unicode blanks, zero-width look-alikes, CR / CRLF / missing line ends, near-miss headers); ConfigFile::new end to end on manifests with mentions around an indented section, and the line reported for a syntax error inside the section vs Manifest.whitespaced.",
+        "C19_mention_is_not_section / C19_blank_is_not_section (a comment or string mentioning the header is never the section), C19_whitespaced_shape, C19_line_numbers_kept (every character of the section is on the same line of the text handed to the TOML parser as in Cargo.toml). C19_text_before_ignored / C19_text_after_ignored (whole non-section lines before, and any text after the header, do not move the split); with the TOML parser as a parameter (Model/ManifestConfig.lean): C19_manifest_before_ignored (under the stated assumption that a blank first line does not change what the parser decodes, text before the section changes neither configuration nor error), C19_manifest_absent, C19_manifest_config (ConfigFile::new = Config.new of the decoded section, so the Config.new theorems speak about manifests). C19_multiline_string_witness: model side of the recorded finding C19-multiline-string. Correspondence for it: the private split_at_config_section, whose source text is extracted from /repo by the harness' build.rs on every build, vs Manifest.splitAtSection vs the statement on ~3k generated texts (Unicode blanks, zero-width look-alikes, CR / CRLF / missing line ends, near-miss headers); ConfigFile::new end to end on manifests with mentions around an indented section, and the line reported for a syntax error inside the section vs Manifest.whitespaced.",
    note=BASE + "The TOML parser is an oracle (Config.new starts from the decoded table; Manifest.whitespaced ends at the text handed to it). A line of a multi-line TOML string that starts with the header text is taken for the section by code and model alike (textual search).", tech=P, ref="§6 C19, notes/C19.md"),
  "C20": dict(
    text="Theorems over a model of find_used_datakey: C20_options_iff / C20_plurals_iff / C20_formatter_iff (option in the set iff some builder key records a plural count / a formatter of that family, any subkey depth, all namespaces), "
